@@ -71,7 +71,7 @@ Lemma ctor_accepts a s :
   cur_a s = min_a s /\ cur_p s = min_p s /\
   servo_cfg_ok s.
 Proof.
-  unfold servo_ctor.
+  unfold servo_ctor. rewrite !py_not_lt_ge.
   destruct (py_ge (dflt servo_default_min_angle (a_min_a a)) (dflt servo_default_max_angle (a_max_a a)))
     as [[|]|] eqn:Ea; try discriminate.
   destruct (py_ge (dflt servo_default_min_pulse (a_min_p a)) (dflt servo_default_max_pulse (a_max_p a)))
@@ -315,7 +315,7 @@ Lemma ctor_raises a :
                       (qval mina < qval maxa /\ qof minp <> None /\ qof maxp <> None /\ qval maxp <= qval minp)
   end.
 Proof.
-  cbn zeta. unfold servo_ctor.
+  cbn zeta. unfold servo_ctor. rewrite !py_not_lt_ge.
   pose proof (py_ge_spec (dflt servo_default_min_angle (a_min_a a)) (dflt servo_default_max_angle (a_max_a a))) as Ha.
   pose proof (py_ge_spec (dflt servo_default_min_pulse (a_min_p a)) (dflt servo_default_max_pulse (a_max_p a))) as Hp.
   destruct (py_ge (dflt servo_default_min_angle (a_min_a a)) (dflt servo_default_max_angle (a_max_a a))) as [[|]|].
